@@ -185,6 +185,57 @@ def tamper_selftest(run, files):
     run.notes.append("trace-spec self-test: %d tampered traces reported exactly the tampered section, a lenient section none" % (len(paths) - 1))
 
 
+def projection_selftest(run, rng):
+    """The snapshot projection is not blind: the harness itself applies, one at a time, the in-memory mutations a leaky
+    simulation would cause (host port / volume / pod usage on the live StateNode, marks, nominations, cached objects, the
+    provider's slices, offerings and requirement sets ...) plus representation-only changes, each between two snapshots;
+    Frame_Trace must report exactly the expected section:class.  Synthetic traces, never part of the verdict."""
+    want_n = 4 if run.tier == "quick" else 12
+    scs = []
+    for _ in range(2000):
+        s = sc.explore(rng, "basic", "st%d" % len(scs))
+        if any(n["stage"] == "initialized" for n in s["nodes"]) and len(s["types"]) >= 2 and \
+                any(p.get("owner", "").startswith("ds:") and p["node"] for p in s["pods"]):
+            scs.append(s)
+            if len(scs) == want_n:
+                break
+    if len(scs) < want_n:
+        raise vlib.InfraError("projection self-test: could not draw suitable scenarios")
+    path = os.path.join(run.work, "selftest.scn.ndjson")
+    sc.write_scenarios(path, scs)
+    out = json.loads(run.drv("frame-selftest", ["-in", path, "-out", os.path.join(run.work, "traces-selftest")]).strip().splitlines()[-1])
+    files = [f if os.path.isabs(f) else os.path.join(run.work, f) for f in out["files"]]
+    before = list(run.viol)
+    tv, ev = run.traces_validated, run.events_validated
+    viol = run.validate("Frame_Trace", "Frame_Trace.cfg", files, heap="1g", par=1)
+    run.viol[:] = before
+    run.traces_validated, run.events_validated = tv, ev
+    name_at = {}
+    for f in files:
+        cur = None
+        for i, line in enumerate(open(f), 1):
+            if '"module":"FrameSelftest"' in line:
+                cur = json.loads(line)["name"]
+            name_at[(f, i)] = cur
+    got = {}
+    for v in viol:
+        got.setdefault(name_at[(v["file"], int(v["line"]))], set()).add(v["sig"])
+    applied = {}
+    for e in out["expect"]:
+        if not e["applied"]:
+            continue
+        applied[e["mutation"]] = applied.get(e["mutation"], 0) + 1
+        g, w = got.get(e["name"], set()), e["want"]
+        if (w and (w[0] not in g or not g <= set(w))) or (not w and g):
+            raise vlib.InfraError("projection self-test: %r -> reported %s, expected %s" % (e["name"], sorted(g), w))
+    missing = {e["mutation"] for e in out["expect"]} - set(applied)
+    if missing:
+        raise vlib.InfraError("projection self-test: mutations never applicable: %s" % sorted(missing))
+    run.notes.append("projection self-test: %d harness-made mutations x %d scenarios reported exactly as expected (%d of them must not show)" % (
+        len(applied), want_n, sum(1 for e in out["expect"][:len(applied)] if not e["want"])))
+    run.extra_cov["projection_selftest_mutations"] = sorted(applied)
+
+
 def check(run):
     t = N[run.tier]
     os.environ["VERIF_FRAME"] = "1"       # the drivers record Snapshot events only for this check
@@ -239,6 +290,7 @@ def check(run):
         raise vlib.InfraError("no provisioning pass changed nominations / pod bookkeeping: the snapshots would not notice a change")
     run.validate("Frame_Trace", "Frame_Trace.cfg", dfiles + sfiles, heap="2g", par=t["par"], timeout=3000)
     tamper_selftest(run, dfiles)
+    projection_selftest(run, rng)
     run.extra_cov.update({
         "frame_behaviours_from_tlc": nbeh, "disruption_scenarios": len(dscen), "sched_scenarios": len(sscen),
         "judged_brackets_by_call": judged, "direct_simulations": sims, "simulations_cancelled_or_timed_out_or_rejected": sim_errs,
